@@ -925,6 +925,8 @@ func areaMetrics(c *Ctx) {
 
 	// ---- (e) OS/2 codec, writer-side derivations (area_metrics_os2.go) ----
 	areaMetricsOs2(c)
+	// ---- metric queries over exact rationals, fractional CFF widths, makeHmtx (area_metrics_q.go) ----
+	areaMetricsQ(c)
 
 	// ---- whole fonts: derived fields inside (*sfnt.Font).Write output ----
 	for i := 0; i < n/5+4; i++ {
